@@ -2326,3 +2326,51 @@ def slice_index_range(ex, m, a, fr, dest):
     if s > e or e > n:
         raise Panic('slice index out of range', fr.name)
     return Slice(items, lo + s, lo + e)
+
+
+def _char_index_of_byte(ex, s, k, fr, what):
+    """For SymStr s and concrete byte offset k: fork on the number of leading chars that make up k bytes."""
+    if k == 0:
+        return 0
+    conds, outs = [], []
+    for nchar in range(0, len(s.chars) + 1):
+        pre = SymStr(s.chars[:nchar], nchar)
+        conds.append(b_and(b_not(b_lt(s.n, nchar)), eq(pre.blen(), k)))
+        outs.append(nchar)
+    conds.append(b_not(b_or(*conds)))
+    i = ex.choose(conds, what)
+    if i == len(outs):
+        raise Panic('byte index %d is out of range or not a char boundary' % k, fr.name if fr else '')
+    return outs[i]
+
+
+@model(r'<str as (?:std::ops::)?Index<(?:std::ops::)?(RangeTo|Range|RangeToInclusive|RangeInclusive)<usize>>>::index|<(?:std::string::)?String as (?:std::ops::)?Index<(?:std::ops::)?(RangeTo|Range)<usize>>>::index|core::str::traits::<impl (?:std::ops::)?Index<(?:std::ops::)?(RangeTo|Range)<usize>> for str>::index')
+def str_index_range(ex, m, a, fr, dest):
+    kind = [g for g in m.groups() if g][0]
+    s = deref(a[0])
+    r = a[1]
+    if kind in ('RangeTo', 'RangeToInclusive'):
+        start, end = 0, r.fields[0]
+    else:
+        start, end = r.fields[0], r.fields[1]
+    if kind.endswith('Inclusive'):
+        end = end + 1
+    if isinstance(s, str):
+        b = s.encode('utf-8')
+        start = ex.concretize(start, 0, len(b) + 1, 'str range')
+        end = ex.concretize(end, 0, len(b) + 1, 'str range')
+        if start > end or end > len(b):
+            raise Panic('byte range out of bounds of str', fr.name)
+        try:
+            b[:start].decode('utf-8')
+            return b[start:end].decode('utf-8')
+        except UnicodeDecodeError:
+            raise Panic('byte index is not a char boundary', fr.name)
+    maxb = len(s.chars) * 4
+    start = ex.concretize(start, 0, maxb, 'str range')
+    end = ex.concretize(end, 0, maxb, 'str range')
+    if start > end:
+        raise Panic('slice index starts after end', fr.name)
+    cs = _char_index_of_byte(ex, s, start, fr, 'range start boundary')
+    ce = _char_index_of_byte(ex, s, end, fr, 'range end boundary')
+    return str_simplify(SymStr(s.chars[cs:ce], ce - cs))
